@@ -161,6 +161,7 @@ static void check_owner_of(Block* b) {
     MHeap& m = H.heaps[claimer];
     if (m.destroyable) sim_violation("adopt_destroyable", "block #%llu at %p left behind by terminated thread %d is now owned by a heap created with mi_heap_new (destroyable): mi_heap_destroy on it would free a live block of another thread", (unsigned long long)b->id, (void*)b->p, b->prog);
     if (m.arena_slot < 0) { for (auto& ar : H.arenas) if (ar.id && ar.exclusive && b->p >= ar.start && b->p < ar.start + ar.size) sim_violation("arena_private", "block #%llu at %p inside exclusive arena %d was adopted by a heap that is not bound to that arena", (unsigned long long)b->id, (void*)b->p, ar.id); }
+    if (m.arena_slot >= 0) { const MArena& ar = H.arenas[m.arena_slot]; if (ar.id && !(b->p >= ar.start && b->p < ar.start + ar.size)) sim_violation("arena_escape", "block #%llu at %p outside arena %d was adopted by a heap that is bound to that arena", (unsigned long long)b->id, (void*)b->p, ar.id); }
     if (b->subproc != T->subproc) sim_violation("subproc", "block #%llu of sub-process %d was adopted by a thread of sub-process %d", (unsigned long long)b->id, b->subproc, T->subproc);
     b->heap = claimer;
   }
